@@ -93,9 +93,38 @@ example : ∀ b ∈ ([104, 105, 33] : Bytes).drop (([104, 105, 33] : Bytes).leng
 theorem murmurLong_ref (d : Nat) (hd : d < 18446744073709551616) :
     Murmur.murmurLong d = Murmur.Ref.murmurHash2 (Murmur.Ref.bytes8 d) 8 := Murmur.murmurLong_ref d hd
 
+/-- `MurmurHash(o uint32) = MurmurHashLong(uint64(o))`: MurmurHash2 of the four little-endian bytes of `o` followed by four
+    zero bytes, seed 8 -/
+theorem murmurU32_ref (o : Nat) (ho : o < 4294967296) :
+    Murmur.murmurU32 o = Murmur.Ref.murmurHash2 (Murmur.Ref.bytes8 o) 8 := by
+  unfold Murmur.murmurU32
+  rw [Nat.mod_eq_of_lt ho]
+  exact Murmur.murmurLong_ref o (by omega)
+
+example : Murmur.Ref.bytes8 4294967295 = [255, 255, 255, 255, 0, 0, 0, 0] := by decide +kernel
+
 /-- `murmurHashLong` / `MurmurHashLongByte` is MurmurHash64A, for every byte string and seed -/
 theorem murmur64_ref (data : Bytes) (seed : Nat) (hw : WFB data) :
     Murmur.murmur64 data seed = Murmur.Ref.murmurHash64A data seed := Murmur.murmur64_eq_ref data seed hw
+
+/-- **hashing a prefix of a larger buffer**: `MurmurHashLongByte(buf, n)` with `n ≤ len(buf)` is MurmurHash64A of the first
+    `n` bytes, whatever follows them in the caller's buffer (arbitrary trailing bytes) -/
+theorem murmurLongByte_prefix (data rest : Bytes) (hw : WFB data) :
+    Murmur.murmurLongByte (data ++ rest) data.length = Murmur.Ref.murmurHash64A data Murmur.defaultSeed := by
+  unfold Murmur.murmurLongByte
+  rw [List.take_left]
+  exact Murmur.murmur64_eq_ref data _ hw
+
+/-- … so the value is independent of the bytes behind the hashed region (no hypothesis on them, not even `< 256`) -/
+theorem murmurLongByte_frame (data rest rest' : Bytes) :
+    Murmur.murmurLongByte (data ++ rest) data.length = Murmur.murmurLongByte (data ++ rest') data.length := by
+  unfold Murmur.murmurLongByte
+  rw [List.take_left, List.take_left]
+
+/-- a length beyond the slice is not a hash of anything in Go (index panic); in the model `take` stops at the end -/
+example : Murmur.murmurLongByte [1, 2, 3] 3 = Murmur.murmurLongByte ([1, 2, 3] ++ [9, 9, 9, 9, 9, 9, 9]) 3 :=
+  murmurLongByte_frame [1, 2, 3] [] _
+example : WFB ([1, 2, 3] : Bytes) := by decide
 
 example : Murmur.murmurByte [1, 2, 3, 4, 5] = Murmur.Ref.murmurHash2 [1, 2, 3, 4, 5] Murmur.defaultSeed := by decide +kernel
 example : ([1, 2, 3, 4, 5] : Bytes).length % 4 ≤ 1 := by decide
@@ -112,6 +141,21 @@ theorem hexa_roundtrip (n : Int) (h : i64 n) : Hexa32.toLong32 (Hexa32.toString3
 theorem hexa_injective (a b : Int) (ha : i64 a) (hb : i64 b)
     (h : Hexa32.toString32 a = Hexa32.toString32 b) : a = b := by
   rw [← hexa_roundtrip a ha, ← hexa_roundtrip b hb, h]
+
+/-- **bijection, both directions**: `ToString32 ∘ ToLong32` fixes a text **iff** the text is the encoding of some 64-bit
+    integer — the encoder's image is exactly the set of texts that survive decode-then-encode, and on it the two functions
+    are mutual inverses (no text outside the image is fixed: `ToLong32` is total and stays inside int64, `toLong32_range`) -/
+theorem hexa_text_fixed_iff (t : List Char) :
+    Hexa32.toString32 (Hexa32.toLong32 t) = t ↔ ∃ n, i64 n ∧ Hexa32.toString32 n = t := by
+  constructor
+  · intro h
+    exact ⟨Hexa32.toLong32 t, Hexa32.toLong32_range t, h⟩
+  · rintro ⟨n, hn, rfl⟩
+    rw [hexa_roundtrip n hn]
+
+example : ∃ n, i64 n ∧ Hexa32.toString32 n = "x10".toList := ⟨32, by unfold i64; decide, by decide +kernel⟩
+/-- a text outside the image: the leading zero is not canonical, decoding accepts it, re-encoding drops it -/
+example : Hexa32.toString32 (Hexa32.toLong32 "x010".toList) = "x10".toList := by decide +kernel
 
 /-- documented forms: 0..9 ↦ the decimal digit -/
 theorem hexa_form_digit : ∀ k : Fin 10, Hexa32.toString32 (k.val : Int) = [Char.ofNat (48 + k.val)] := by
@@ -238,6 +282,31 @@ theorem ip_toString_injective (a b c d a' b' c' d' : Nat) (ha : a < 256) (hb : b
     (ha' : a' < 256) (hb' : b' < 256) (hc' : c' < 256) (hd' : d' < 256)
     (h : IpUtil.toString [a, b, c, d] = IpUtil.toString [a', b', c', d']) : [a, b, c, d] = [a', b', c', d'] :=
   IpUtil.toString_injective a b c d a' b' c' d' ha hb hc hd ha' hb' hc' hd' h
+
+/-- **`IsOK` is exactly the domain of the conversions**: whatever `ToBytes` (any text) and `ToBytesFrInt` (any int) return
+    satisfies it, and every slice that satisfies it comes back from its text and from its int;
+    `IsNotLocal` on such a slice says that the first octet is not 127 -/
+theorem ip_isOK :
+    (∀ s, IpUtil.isOK (IpUtil.toBytes s) = true) ∧ (∀ i, IpUtil.isOK (IpUtil.toBytesFrInt i) = true)
+    ∧ (∀ ip, WFB ip → IpUtil.isOK ip = true →
+        (IpUtil.toString ip).map IpUtil.toBytes = some ip ∧ (IpUtil.toInt ip).map IpUtil.toBytesFrInt = some ip)
+    ∧ (∀ ip, IpUtil.isNotLocal ip = true ↔ IpUtil.isOK ip = true ∧ ip.head? ≠ some 127) := by
+  refine ⟨fun s => ?_, fun i => ?_, fun ip hw h => ?_, fun ip => ?_⟩
+  · simp [IpUtil.isOK, (IpUtil.toBytes_wf s).1]
+  · simp [IpUtil.isOK, (IpUtil.toBytesFrInt_wf i).1]
+  · match ip, hw, h with
+    | [a, b, c, d], hw, _ =>
+      have ha : a < 256 := hw a (by simp)
+      have hb : b < 256 := hw b (by simp)
+      have hc : c < 256 := hw c (by simp)
+      have hd : d < 256 := hw d (by simp)
+      exact ⟨IpUtil.toBytes_toString a b c d ha hb hc hd, IpUtil.toBytesFrInt_toInt a b c d ha hb hc hd⟩
+  · cases ip with
+    | nil => simp [IpUtil.isNotLocal, IpUtil.isOK]
+    | cons a t => simp [IpUtil.isNotLocal, IpUtil.isOK]
+
+example : IpUtil.isOK [127, 0, 0, 1] = true ∧ IpUtil.isNotLocal [127, 0, 0, 1] = false
+    ∧ IpUtil.isNotLocal [10, 0, 0, 1] = true ∧ IpUtil.isOK [1, 2, 3] = false ∧ IpUtil.isOK [] = false := by decide
 
 example : IpUtil.isCanonical "10.0.0.255".toList = true ∧ IpUtil.isCanonical "10.0.0.256".toList = false
     ∧ IpUtil.isCanonical "010.0.0.1".toList = false := by decide +kernel
